@@ -1,12 +1,14 @@
 package props
 
 import (
+	"encoding/json"
 	"fmt"
 	"strings"
 	"testing"
 
 	"verifharness/crashfs"
 	"verifharness/hx"
+	"verifharness/wl"
 )
 
 // C03 Restart after a crash succeeds and leaves data readable (process-crash model;
@@ -43,6 +45,31 @@ func checkRestartOK(cr *crashRun, k int, a *restartResult, rec *hx.Rec) error {
 	for _, bd := range a.Dump.Buckets {
 		if bd.Error != "" {
 			return fmt.Errorf("bucket %s existed before the crash but cannot be queried after restart: %s", bd.Key, bd.Error)
+		}
+	}
+	if s := a.Second; s != nil {
+		// the start-up set a WAL aside: one more start-up must succeed, leave the set-aside file
+		// alone and serve the same data
+		rec.Class("second-restart-after-a-WAL-was-set-aside", 1)
+		if !s.OK {
+			return fmt.Errorf("a second start-up after a WAL file was set aside fails: %s", restartFailure(s))
+		}
+		tmp := func(d *wl.Dump) string {
+			var l []string
+			for _, f := range d.WALFiles {
+				if strings.HasSuffix(f, ".tmp") {
+					l = append(l, f)
+				}
+			}
+			return fmt.Sprint(l)
+		}
+		if tmp(a.Dump) != tmp(s.Dump) {
+			return fmt.Errorf("set-aside WAL files after the first start-up %s, after the second %s: a file that was set aside is picked up again", tmp(a.Dump), tmp(s.Dump))
+		}
+		b1, _ := json.Marshal(a.Dump.Buckets)
+		b2, _ := json.Marshal(s.Dump.Buckets)
+		if string(b1) != string(b2) {
+			return fmt.Errorf("a second start-up changes the data: first %.300s second %.300s", b1, b2)
 		}
 	}
 	return nil
